@@ -13,21 +13,30 @@ open Grammar AstWalk
 `reached t` is the accessor walk with structure (`walkTree t = (reached t).map fmt`), `allNodes t`
 lists all nodes below the root as (start, kind, end) -/
 theorem accessors_reach_all (input : List Char) (p : Frag.Program)
-    (h : (PState.init input).kinds = p.render) :
+    (h : (PState.init input).kinds = p.render) (hend : Src.endMessage input = none) :
     ∃ r, parse input = .ok r ∧ r.errors = [] ∧
       ∀ x ∈ allNodes r.tree, ∃ label, (label, x) ∈ reached r.tree := by
-  obtain ⟨r, h1, h2, h3⟩ := forward_tree input p h
+  obtain ⟨r, h1, h2, h3⟩ := forward_tree input p h hend
   exact ⟨r, h1, h2, reach_tree r.tree h3⟩
 
 /-- the same in terms of the printed walk -/
 theorem accessors_reach_all_printed (input : List Char) (p : Frag.Program)
-    (h : (PState.init input).kinds = p.render) :
+    (h : (PState.init input).kinds = p.render) (hend : Src.endMessage input = none) :
     ∃ r, parse input = .ok r ∧ r.errors = [] ∧
       ∀ x ∈ allNodes r.tree, ∃ label, fmt (label, x) ∈ walkTree r.tree := by
-  obtain ⟨r, h1, h2, h3⟩ := accessors_reach_all input p h
+  obtain ⟨r, h1, h2, h3⟩ := accessors_reach_all input p h hend
   refine ⟨r, h1, h2, fun x hx => ?_⟩
   obtain ⟨label, hl⟩ := h3 x hx
   exact ⟨label, by rw [walkTree_eq]; exact List.mem_map_of_mem hl⟩
+
+/-- the accessor clause whatever the end of the text is like (the tree does not depend on what
+`ParserBase::finish` appends to the error list) -/
+theorem accessors_reach_all_end (input : List Char) (p : Frag.Program)
+    (h : (PState.init input).kinds = p.render) :
+    ∃ r, parse input = .ok r ∧ r.errors = endErrors input ∧
+      ∀ x ∈ allNodes r.tree, ∃ label, (label, x) ∈ reached r.tree := by
+  obtain ⟨r, h1, h2, h3⟩ := forward_tree_end input p h
+  exact ⟨r, h1, h2, reach_tree r.tree h3⟩
 
 /-- **source order** (for every tree, every node, every accessor): the nodes one accessor returns
 come with non-overlapping, increasing byte ranges -/
